@@ -60,13 +60,13 @@ pub fn spec(id: &str) -> Option<PropSpec> {
     };
     match id {
         "C06" => Some(base(
-            vec![cs(&AGG, "agg-protocol", 350, 6000, false), cs(&AGG, "agg-direct", 250, 5000, false), cs(&AGG, "agg-every-n", 12, 63 * 6 * 3, false), cs(&AGG, "agg-max-n", 6, 48, false), cs(&CONC, "conc-agg", 100, 1000, false), cs(&AGG, "agg-block-sizes", 122, 366, true), cs(&AGG, "agg-very-long", 2, 24, true), cs(&AGG, "mixed-blocks", 4, 8, true)],
+            vec![cs(&AGG, "agg-protocol", 350, 6000, false), cs(&AGG, "agg-direct", 250, 5000, false), cs(&AGG, "agg-every-n", 12, 63 * 6 * 3, false), cs(&AGG, "agg-max-n", 6, 48, false), cs(&CONC, "conc-agg", 100, 1000, false), cs(&AGG, "agg-block-sizes", 122, 366, true), cs(&AGG, "agg-very-long", 16, 36, true), cs(&AGG, "mixed-blocks", 4, 8, true)],
             "cases = (group, scheme, list length, list kind {exact, permuted, reversed, one of 12 relay perturbations}, repeated-message flag, reference decision) over arrival histories under loss/duplication/reordering with and without de-duplication at the aggregator; \
              class `agg-every-n` walks n = 2..=64; non-trivial = every list other than the exact one",
             vec!["cur-blst"],
         )),
         "C07" => Some(base(
-            vec![cs(&AGG, "multi-protocol", 300, 6000, false), cs(&AGG, "multi-direct", 200, 4000, false), cs(&AGG, "multi-every-n", 10, 63 * 6 * 2, false), cs(&CONC, "conc-multi", 100, 1000, false), cs(&AGG, "mixed-blocks", 8, 8, true)],
+            vec![cs(&AGG, "multi-protocol", 300, 6000, false), cs(&AGG, "multi-direct", 200, 4000, false), cs(&AGG, "multi-every-n", 10, 63 * 6 * 2, false), cs(&CONC, "conc-multi", 200, 1500, false), cs(&AGG, "mixed-blocks", 8, 8, true)],
             "cases = (group, scheme in {Basic, PoP}, number of accumulated contributions, arrivals incomplete?, fault-script length) and, per run, every single-signer omission / re-addition / replacement / stranger addition (all positions for n <= 12, sampled above) and another message; non-trivial = runs with lost or duplicated contributions and every negative case",
             vec!["cur-blst"],
         )),
@@ -96,7 +96,7 @@ pub fn spec(id: &str) -> Option<PropSpec> {
             vec!["cur-blst"],
         )),
         "C02" => Some(base(
-            vec![cs(&SIGN, "tamper", 2200, 40000, false), cs(&SIGN, "tamper-lengths", COMPOSITE_CELLS, COMPOSITE_CELLS * 6, false), cs(&SIGN, "tamper-big", 24, 144, false), cs(&SIGN, "bitflip-all", 6, 54, false), cs(&CONC, "conc-tamper", 200, 3000, false)],
+            vec![cs(&SIGN, "tamper", 2200, 40000, false), cs(&SIGN, "tamper-lengths", COMPOSITE_CELLS, COMPOSITE_CELLS * 6, false), cs(&SIGN, "tamper-big", 24, 144, false), cs(&SIGN, "bitflip-all", 6, 54, false), cs(&SIGN, "verify-scale", 2, 6, true), cs(&CONC, "conc-tamper", 200, 3000, false)],
             "cases = (group, scheme, perturbation kind of the Byzantine relay {sig+kG, -sig, k*sig, signature of another message/key, message bit-flip/truncate/extend/empty/prefix, other key, pk+G, -pk, relabel, valid related tuples, in-flight bit flips}, reference decision); \
              `bitflip-all` flips every single bit of the pk, signature and message encodings of one honest tuple per run; every perturbed tuple is non-trivial",
             vec!["cur-blst", "ref (draft tags)"],
@@ -114,13 +114,13 @@ pub fn spec(id: &str) -> Option<PropSpec> {
             vec!["cur-blst"],
         )),
         "C05" => Some(base(
-            vec![cs(&SIGN, "relabel", 800, 9000, false), cs(&SIGN, "relabel-lengths", 240, COMPOSITE_CELLS, false), cs(&SIGN, "tags", 1, 1, true), cs(&CONC, "conc-relabel", 100, 1000, false)],
+            vec![cs(&SIGN, "relabel", 800, 9000, false), cs(&SIGN, "relabel-lengths", 240, COMPOSITE_CELLS, false), cs(&SIGN, "tags", 1, 1, true), cs(&CONC, "conc-relabel", 200, 1500, false)],
             "cases = (group, ordered pair of distinct schemes, artefact type {Signature, MultiSignature, AggregateSignature, SignatureShare, SignCryptCiphertext, TimeCryptCiphertext, ProofOfKnowledge, ProofCommitment, ProofOfKnowledgeTimestamp}) plus PoP-vs-signature confusions; \
              class `tags` enumerates the ten tag constants the library exposes (pairwise distinct; eight equal to the draft strings); every relabelled case is non-trivial",
             vec!["cur-blst", "ref (draft strings, tag comparison only)"],
         )),
         "C09" => Some(base(
-            vec![cs(&SIGN, "registry", 1000, 15000, false), cs(&CONC, "conc-registry", 100, 1000, false)],
+            vec![cs(&SIGN, "registry", 1000, 15000, false), cs(&SIGN, "registry-scale", 2, 4, true), cs(&CONC, "conc-registry", 100, 1000, false)],
             "cases = (group, key class of registrant, untouched/corrupted in flight, decision) + all ordered pairs of distinct registrants (cross-registration) + perturbed proofs {-pi, pi+G, k*pi, identity, off-subgroup, bit flips}; non-trivial = any case other than an untouched own registration",
             vec!["cur-blst"],
         )),
@@ -143,7 +143,7 @@ pub fn spec(id: &str) -> Option<PropSpec> {
             )
         }),
         "C11" => Some(base(
-            vec![cs(&CRYPT, "sc-roundtrip", 1200, 24000, false), cs(&CRYPT, "sc-roundtrip-big", BIG_LENS, BIG_LENS * 6, true), cs(&CRYPT, "sc-tamper", 1500, 30000, false), cs(&CRYPT, "sc-bitflip-all", 6, 36, false), cs(&CRYPT, "sc-roundtrip-huge", 4, 10, true), cs(&CONC, "conc-sc", 150, 1500, false), cs(&CONC, "conc-sc-tamper", 100, 1000, false)],
+            vec![cs(&CRYPT, "sc-roundtrip", 1200, 24000, false), cs(&CRYPT, "sc-roundtrip-big", BIG_LENS, BIG_LENS * 6, true), cs(&CRYPT, "sc-tamper", 1500, 30000, false), cs(&CRYPT, "sc-bitflip-all", 6, 36, false), cs(&CRYPT, "sc-roundtrip-huge", 4, 13, true), cs(&CONC, "conc-sc", 150, 1500, false), cs(&CONC, "conc-sc-tamper", 100, 1000, false)],
             "cases = (group, scheme, message length {0..40, 100..140, LEB128 boundaries 127/128, 16383/16384, 64 KiB; class `sc-roundtrip-big`: all 182 lengths whose framed size is within 1 of 2^16..2^25 or of 168*2^j / 136*2^j, j=7..14}, codec at rest, crash/duplicate faults | relay perturbation kind {u, v bit/length/prefix, w, label, splices, in-flight truncation/extension/bit flip} | every single bit of a short ciphertext in `sc-bitflip-all`); \
              non-trivial = any altered ciphertext or a run with crash/duplicate faults",
             vec!["cur-blst"],
@@ -154,7 +154,7 @@ pub fn spec(id: &str) -> Option<PropSpec> {
             vec!["cur-blst"],
         )),
         "C13" => Some(base(
-            vec![cs(&CRYPT, "tl-beacon", 1000, 15000, false), cs(&CRYPT, "tl-beacon-big", BIG_LENS, BIG_LENS * 6, true), cs(&CRYPT, "tl-tamper", 2400, 36000, false), cs(&CRYPT, "tl-bitflip-all", 12, 54, false), cs(&CRYPT, "tl-beacon-huge", 4, 10, true), cs(&CONC, "conc-tl", 100, 1000, false), cs(&CONC, "conc-tl-tamper", 60, 600, false)],
+            vec![cs(&CRYPT, "tl-beacon", 1000, 15000, false), cs(&CRYPT, "tl-beacon-big", BIG_LENS, BIG_LENS * 6, true), cs(&CRYPT, "tl-tamper", 2400, 36000, false), cs(&CRYPT, "tl-bitflip-all", 12, 54, false), cs(&CRYPT, "tl-beacon-huge", 4, 13, true), cs(&CONC, "conc-tl", 100, 1000, false), cs(&CONC, "conc-tl-tamper", 60, 600, false)],
             "cases = (group, scheme, beacon kind {whole key, t-of-n recombined over a lossy/duplicating transport}, message length (class `tl-beacon-big`: all 182 lengths whose framed size is within 1 of 2^16..2^25 or of 168*2^j / 136*2^j, j=7..14), identifier kind, fault-script length | perturbation kind distinguishing header, authenticated prefix of w and padding, incl. in-place rewrites of the length prefix to values around 2^7..2^128 | every single bit in `tl-bitflip-all`); non-trivial = recombined beacons, runs with faults, all altered ciphertexts",
             vec!["cur-blst"],
         )),
@@ -267,7 +267,7 @@ pub fn spec(id: &str) -> Option<PropSpec> {
                 v.push(cst(&AGG, "multi-protocol", 20, 400, mode));
                 v.push(cst(&AGG, "agg-max-n", 6, 24, mode));
                 v.push(cst(&AGG, "agg-block-sizes", 40, 122, mode));
-                v.push(cst(&AGG, "agg-very-long", 2, 12, mode));
+                v.push(cst(&AGG, "agg-very-long", 14, 30, mode));
                 v.push(cst(&THRESH, "clean", 20, 400, mode));
                 v.push(cst(&THRESH, "byzantine", 30, 600, mode));
                 v.push(cst(&THRESH, "large", 2, 16, mode));
